@@ -145,7 +145,7 @@ def const(v) -> SV:
     raise Refuse(f"constant of type {type(v).__name__}")
 
 
-LOG_CLASSES = {"SysLog", "AgentLog", "Logger", "_JSONFilter", "PacketCapture"}
+LOG_CLASSES = {"SysLog", "AgentLog", "Logger", "_JSONFilter", "PacketCapture", "_SimOutput"}
 LOG_NAMES = {"_LOGGER", "logger", "LOGGER"}
 
 
@@ -1555,6 +1555,9 @@ class Interp:
             for n in reversed(names[:-1]):
                 res = z3.If(idx.t == const(n).t, ms[n], res)
             return SV(smt.simp(res), T.ENUM(base.ci))
+        if isinstance(base, PExt):
+            st.log.append(f"{base.name}[...] read as an unconstrained value")
+            return st.fresh_val("ext_item", T.ANY)
         if not isinstance(base, SV):
             raise Refuse(f"subscript of {type(base).__name__}")
         ty = base.ty
@@ -1792,6 +1795,9 @@ class Interp:
         line = getattr(node, "lineno", 0)
         if isinstance(base, PClass):
             raise Refuse(f"store to class attribute {base.ci.name}.{attr}")
+        if isinstance(base, (PExt, PLog)):
+            st.log.append(f"store to attribute .{attr} of an external / logging object ignored")
+            return
         if not isinstance(base, SV):
             raise Refuse(f"attribute store on {type(base).__name__}")
         ty = base.ty
